@@ -124,6 +124,7 @@ type Run struct {
 	noteAssume    int
 	sizeClassUsed int
 	crcApps       []crcApp
+	xxhApps       []crcApp
 }
 
 type obsRec struct {
